@@ -25,6 +25,15 @@ C13_NotBlockedPastDeadline_ConcurrentCallers == Is("blocked") /\ Obs.overlap /\ 
 C13_NothingStranded == Is("blocked") => Obs.avail = 0
 C13_CloseWakesAll == Is("blocked") => ~Obs.closed
 C13_ErrorWakesAll == Is("blocked") => ~Obs.serr
+(* the same four clauses at every tick: half a time unit after the events of an instant (everything that reacts to them has   *)
+(* reacted by then) nobody may still be blocked although the session is closed, its socket has failed, what the callers wait  *)
+(* for is there, or the deadline in force has been reached                                                                    *)
+IsTick == Is("tick") /\ Obs.blocked > 0
+C13_CloseWakesAll_Tick == IsTick => ~Obs.closed
+C13_ErrorWakesAll_Tick == IsTick => ~Obs.serr
+C13_NothingStranded_Tick == IsTick => Obs.avail = 0
+C13_NotBlockedPastDeadline_Tick == IsTick /\ ~Obs.overlap /\ Obs.dl # 0 => Obs.now < Obs.dl
+C13_NotBlockedPastDeadline_Tick_ConcurrentCallers == IsTick /\ Obs.overlap /\ Obs.dl # 0 => Obs.now < Obs.dl
 (* a call that found / was woken by what it waits for returns it at that time *)
 C13_OkIsPrompt == Is("ret") /\ Obs.res = "ok" => Obs.t = Obs.since
 (* Accept: a deadline changed while Accept is already blocked has no effect (listed known finding) *)
